@@ -100,8 +100,11 @@ def parse_result_file(path, res):
     return res
 
 
-def run_harnesses(qualified, target_name, jobs=12, harness_timeout_s=900, full_checks=False, mem_gb=14, wall_cap_s=None):
-    """qualified: list of 'module::harness'. Returns ({name: KaniResult}, wall_s, log_path)."""
+def run_harnesses(qualified, target_name, jobs=12, harness_timeout_s=900, full_checks=False, mem_gb=14, wall_cap_s=None, remember_undecided=None):
+    """qualified: list of 'module::harness'. Returns ({name: KaniResult}, wall_s, log_path).
+    remember_undecided: regex of instances (the thorough tier's best-effort shapes) whose 'not decided within this cap and
+    memory limit' outcome is remembered per (tree, harness sources, flags, cap, limit) - it is reported as not decided again
+    instead of burning the cap once more in the next property that shares the instance."""
     tdir = os.path.join(BUILD, 'kani-' + target_name)
     outdir = os.path.join(tdir, 'result_output_dir')
     if os.path.isdir(outdir):
@@ -112,6 +115,11 @@ def run_harnesses(qualified, target_name, jobs=12, harness_timeout_s=900, full_c
     todo = []
     for q in qualified:
         c = cache_load(q, full_checks)
+        if c is None and remember_undecided and re.search(remember_undecided, q) and not os.environ.get('VERIF_NO_CACHE') \
+                and os.path.exists(undecided_path(q, full_checks, harness_timeout_s, mem_gb)):
+            c = KaniResult(q)
+            c.status = 'undecided'
+            c.from_cache = True
         if c is not None:
             results[q] = c
         else:
@@ -144,8 +152,15 @@ def run_harnesses(qualified, target_name, jobs=12, harness_timeout_s=900, full_c
                 cache_store(r, full_checks)
             else:
                 r.status = 'undecided'
+            if r.status == 'undecided' and remember_undecided and re.search(remember_undecided, q) and not build_failed:
+                os.makedirs(os.path.join(BUILD, 'cache'), exist_ok=True)
+                open(undecided_path(q, full_checks, harness_timeout_s, mem_gb), 'w').write('not decided within %d s / %d GB\n' % (harness_timeout_s, mem_gb))
             results[q] = r
     return results, wall, log, build_failed
+
+
+def undecided_path(qualified, full_checks, timeout_s, mem_gb):
+    return os.path.join(BUILD, 'cache', '%s.undecided_%d_%d' % (cache_key(qualified, full_checks), timeout_s, mem_gb))
 
 
 PB_RE = re.compile(r"/// Check for `(\w+)`: \"\"?(.*?)\"?\"\s*\n.*?let concrete_vals: Vec<Vec<u8>> = vec!\[(.*?)\n    \];", re.S)
@@ -212,20 +227,37 @@ def native_replay(harness, values, profile='debug', timeout_s=120):
     return 'error', 'exit %d\n%s' % (p.returncode, p.stdout)
 
 
-def harness_crate_hash():
+# sources a harness module is compiled from besides the shared ones (models, Cargo.toml, lib.rs, sym.rs, vocab.rs)
+MODULE_DEPS = {'step': ['step'], 'commit': ['commit', 'step'], 'relabel': ['relabel', 'step'], 'exec': ['exec'], 'unit': ['unit'],
+               'parseq': ['parseq', 'exec'], 'world': ['world'], 'data': ['data']}
+_crate_hash = {}
+
+
+def harness_crate_hash(module=None):
+    """Hash of everything a harness of `module` is compiled from: a verdict is reused only while these files, the tree
+    of /repo and the flags are byte-identical. Editing one harness family does not invalidate the others."""
+    if module in _crate_hash:
+        return _crate_hash[module]
     h = hashlib.sha256()
-    for root in [os.path.join(KANI_DIR, 'src'), os.path.join(KANI_DIR, 'models')]:
+    src = os.path.join(KANI_DIR, 'src')
+    mods = MODULE_DEPS.get(module)
+    for root in [src, os.path.join(KANI_DIR, 'models')]:
         for d, _, fs in sorted(os.walk(root)):
             for f in sorted(fs):
                 pth = os.path.join(d, f)
+                if root == src and mods is not None:
+                    stem = f.split('.')[0].split('_instances')[0]
+                    if stem not in ('lib', 'sym', 'vocab') and stem not in mods:
+                        continue
                 h.update(pth.encode())
                 h.update(open(pth, 'rb').read())
     h.update(open(os.path.join(KANI_DIR, 'Cargo.toml'), 'rb').read())
-    return h.hexdigest()[:16]
+    _crate_hash[module] = h.hexdigest()[:16]
+    return _crate_hash[module]
 
 
 def cache_key(qualified, full_checks):
-    return hashlib.sha256(('%s|%s|%s|%s|%s' % (repo_tree_hash(), harness_crate_hash(), qualified, full_checks, ' '.join(CBMC_ARGS + REDUCED))).encode()).hexdigest()[:24]
+    return hashlib.sha256(('%s|%s|%s|%s|%s' % (repo_tree_hash(), harness_crate_hash(qualified.split('::')[0]), qualified, full_checks, ' '.join(CBMC_ARGS + REDUCED))).encode()).hexdigest()[:24]
 
 
 def cache_load(qualified, full_checks):
